@@ -146,6 +146,7 @@ pub fn exec(ctx: &mut Ctx, c: &Case) -> bool {
     let mut start = 0usize;
     let mut errored = false;
     let mut state_at_error = 0u8;
+    let mut written_before_and_at_error: Vec<u8> = Vec::new();
     'outer: for si in 0..=c.cuts_a.len() {
         let end = if si < c.cuts_a.len() { c.cuts_a[si].min(c.a.len()) } else { c.a.len() };
         if end <= start {
@@ -159,7 +160,9 @@ pub fn exec(ctx: &mut Ctx, c: &Case) -> bool {
             let probe_state = r.conn.verif_probe();
             let so = r.read();
             consumed += before - r.script.pending_read_bytes();
-            let _ = drain(&mut r);
+            if let Ok(w) = drain(&mut r) {
+                written_before_and_at_error.extend_from_slice(&w);
+            }
             match so.res {
                 RR::Ok => {}
                 RR::Parse(_) => {
@@ -182,6 +185,25 @@ pub fn exec(ctx: &mut Ctx, c: &Case) -> bool {
     }
     r.script.clear_reads();
     ctx.rep.count(&format!("errors_in_state_{}", ["reqline", "headers", "body", "ready"][(state_at_error as usize).min(3)]));
+    // nothing of the rejected request is retained in the OUTPUT either: what the connection has produced up to and
+    // including the erroring read is exactly the interim responses owed to the requests that precede the error
+    {
+        let want: Vec<u8> = m.events.iter().take_while(|e| !matches!(e, M1Event::Error { .. })).filter_map(|e| if let M1Event::Continue100 { version, .. } = e { Some(*version) } else { None }).collect();
+        let (resps, used, perr) = crate::model::read_all_responses(&written_before_and_at_error);
+        let got: Vec<u8> = resps.iter().map(|r| r.version).collect();
+        let all_100 = resps.iter().all(|r| r.code == 100);
+        if perr.is_some() || used != written_before_and_at_error.len() || !all_100 || got != want {
+            ctx.rep.violation(
+                "C11:output-left-by-rejected-request",
+                format!("[{}] up to the error the input owes {} interim responses (versions {:?}); the connection produced {:?}", c.what, want.len(), want, show(&written_before_and_at_error)),
+                case_json(c),
+            );
+            return true;
+        }
+        if !want.is_empty() {
+            ctx.rep.count("interim_responses_before_the_error_checked");
+        }
+    }
     // ---- phase 2: continuation on the post-error connection and on a fresh one
     let mut bp = c.a[consumed.min(c.a.len())..].to_vec();
     let rest_len = bp.len();
